@@ -24,6 +24,7 @@ def build():
     sysd = os.path.join(REPO, "src/System")
     units += [(os.path.join(sysd, f), cflags if f.endswith(".c") else flags) for f in SYS if os.path.exists(os.path.join(sysd, f))]
     objs = compile_objects(out, units)
+    redirect_allocator([o for o, (src, fl) in zip(objs, units) if src.startswith(REPO) and src.endswith(".cxx")])
     libs = []
     for d, l in (("mfront/src", "TFELMFront"), ("mfront/src", "MFrontLogStream"), ("src/System", "TFELSystem"), ("src/Math", "TFELMathParser"), ("src/Math", "TFELMathCubicSpline"), ("src/Math", "TFELMath"), ("src/Utilities", "TFELUtilities"),
                  ("src/Glossary", "TFELGlossary"), ("src/UnicodeSupport", "TFELUnicodeSupport"), ("src/Config", "TFELConfig"), ("src/Exception", "TFELException"), ("src/Material", "TFELMaterial")):
@@ -51,6 +52,7 @@ def build():
         extra = [f for f in fl if f.startswith("-Dmain=") or f.startswith("-DinitDSLs") or f.startswith("-DinitInterfaces")]
         runits.append((src, (["-O1", "-g", "-DNDEBUG"] + inc) if src.endswith(".c") else ((rinst if instrumented else rplain) + extra)))
     robjs = compile_objects(os.path.join(out, "race"), runits)
+    redirect_allocator([o for o, (src, fl) in zip(robjs, runits) if src.startswith(REPO) and src.endswith(".cxx")])
     rexe = link(os.path.join(out, "h52_race"), robjs, ["-rdynamic", WRAP, so, "-Wl,-rpath," + out] + libs + ["-ldl", "-lpthread"])
     return {"asan": exe, "race": rexe}
 
@@ -60,6 +62,9 @@ def signature(rec):
     if cls in ("memory-error", "crash"):
         m = re.search(r"SUMMARY: \w+: ([\w-]+) (\S+?)(:\d+)* in (.*)", d)
         return "%s in %s" % (m.group(1), m.group(4).strip()[:80]) if m else re.sub(r"0x[0-9a-f]+", "0x?", d)[:120]
+    if cls == "self-deadlock" and "allocator re-entered by signal handler" in d:
+        m = re.search(r"operator new/delete from ((?:tfel::system::)?[\w:~]+)", d)
+        return "allocator re-entered by signal handler in %s" % (m.group(1) if m else "?")
     if cls == "self-deadlock":
         m = re.search(r"locks mutex (\w+)", d)
         return "re-entered " + (m.group(1) if m else "?")
